@@ -286,6 +286,9 @@ struct simcfg {
 	size_t (*rawgen)(struct sim *s, uint8_t *out, size_t cap, uint64_t fuzz_seed, int where);
 	long slow_query; /* > 0: the answer to this query (1-based) arrives one byte per slow_gap seconds; later answers at once */
 	unsigned int slow_gap;
+	long other_leaves_at_byte; /* > 0: once this many bytes of an answer have been delivered, the first of the two other sources is stopped - its
+				    * records leave the shared tables while this client is in the middle of a response */
+	bool other_leaves_in_a_reload; /* ... and not before this client is inside the answer to a Reset Query while it holds data */
 	long mode_switch_at_byte; /* > 0: the application calls rtr_set_interval_mode(mode_switch_to) once this many bytes of the first connection have been
 				   * delivered - typically between the Cache Response and the End of Data of a response */
 	int mode_switch_to;
@@ -339,6 +342,7 @@ struct sim {
 	pid_t fsm_tid; /* kernel id of the thread that made the latest transport call */
 	bool intr_fired;
 	bool mode_switched;
+	bool other_left, cb_count_paused;
 	bool slow_started;
 	uint8_t slow_rest[40]; /* second part of an unsolicited PDU that is delivered in two parts (event kinds 8, 9) */
 	size_t slow_rest_len;
